@@ -62,3 +62,12 @@ brk("c30-bad-secret-header-swallowed", HS,
     "    except (ValueError, KeyError):\n        raise ClientSecretsException(\"Bad header value(s): {}\".format(header_values))",
     "    except (ValueError, KeyError):\n        result = {k: result.get(k, b\"x\" * 32) for k in required_secrets}",
     note="undecodable secret headers are replaced by a default instead of rejecting")
+# ---- families added after seeded/C30-1 and seeded/C30-2
+brk("c30-authorization-compared-case-insensitively", HS,
+    "                        auth_header,\n                        swissnum_auth_header(self._swissnum),",
+    "                        auth_header.lower(),\n                        swissnum_auth_header(self._swissnum).lower(),",
+    note="base64 text differing only in letter case encodes a different swissnum")
+# NOT breaks (kept as documentation): each half of seeded/C30-2 alone leaves the property intact -- not popping the
+# per-share secret in remove_write_bucket is repaired by add_write_bucket overwriting it, and setdefault in
+# add_write_bucket is harmless while remove_write_bucket pops.  Only the combination (seeded/C30-2/patch.diff,
+# caught by the stale-secret history family) lets the previous uploader's secret govern a re-allocated share.
